@@ -146,7 +146,12 @@ type site struct {
 	// the vertex sharing helper the emission goes through (index-of(vertex)), if any
 	lookupFn *ssa.Function
 	vertsOK  bool
-	invs     map[string]ssa.Value // loop-invariant scalar symbols seen in vertex formulas
+	rootEv   *evaluator
+	blockFn  *ssa.Function // the function that owns the cell loops (the site itself unless the triangle loop was extracted)
+	// calls whose only use is a dead default store (their arguments cannot matter)
+	deadCalls   map[*ssa.Call]bool
+	flaggedAtEq bool                 // the corner bit is set when the sample equals the threshold
+	invs        map[string]ssa.Value // loop-invariant scalar symbols seen in vertex formulas
 
 	// outcome bookkeeping for controls
 	viol  map[string]int
@@ -155,6 +160,89 @@ type site struct {
 }
 
 func (s *site) key(sub string) string { return s.name + "#" + sub }
+
+// root is the evaluator for the site function itself. When the function has exactly one in-package call
+// site its parameters can be followed upward (a triangle loop or a cell body extracted into a helper).
+func (s *site) root() *evaluator {
+	if s.rootEv != nil {
+		return s.rootEv
+	}
+	s.rootEv = &evaluator{m: s.m, up: upBindings(s.m, s.fn, 0)}
+	return s.rootEv
+}
+
+func upBindings(m *slotModel, fn *ssa.Function, depth int) map[*ssa.Parameter]boundVal {
+	if depth > 3 || fn.Pkg == nil || len(fn.Params) == 0 {
+		return nil
+	}
+	var calls []*ssa.Call
+	for _, mem := range fn.Pkg.Members {
+		_ = mem
+	}
+	for _, other := range allFuncs(fn.Pkg) {
+		ssau.AllInstrs(other, func(in ssa.Instruction) {
+			if ci, ok := in.(ssa.CallInstruction); ok && ci.Common().StaticCallee() == fn {
+				if call, ok := in.(*ssa.Call); ok {
+					calls = append(calls, call)
+				} else {
+					calls = append(calls, nil)
+				}
+			}
+		})
+	}
+	if len(calls) != 1 || calls[0] == nil {
+		return nil
+	}
+	call := calls[0]
+	caller := &evaluator{m: m, up: upBindings(m, call.Parent(), depth+1)}
+	up := map[*ssa.Parameter]boundVal{}
+	for i, p := range fn.Params {
+		if i < len(call.Call.Args) {
+			up[p] = boundVal{call.Call.Args[i], caller}
+		}
+	}
+	return up
+}
+
+var funcsCache = map[*ssa.Package][]*ssa.Function{}
+
+// allFuncs: functions, methods and closures of a package (cached per run).
+func allFuncs(pkg *ssa.Package) []*ssa.Function {
+	if fs, ok := funcsCache[pkg]; ok {
+		return fs
+	}
+	seen := map[*ssa.Function]bool{}
+	var out []*ssa.Function
+	var add func(f *ssa.Function)
+	add = func(f *ssa.Function) {
+		if f == nil || seen[f] || f.Blocks == nil {
+			return
+		}
+		seen[f] = true
+		out = append(out, f)
+		for _, a := range f.AnonFuncs {
+			add(a)
+		}
+	}
+	for _, mem := range pkg.Members {
+		switch x := mem.(type) {
+		case *ssa.Function:
+			add(x)
+		case *ssa.Type:
+			for _, t := range []types.Type{x.Type(), types.NewPointer(x.Type())} {
+				ms := pkg.Prog.MethodSets.MethodSet(t)
+				for i := 0; i < ms.Len(); i++ {
+					if f := pkg.Prog.MethodValue(ms.At(i)); f != nil && f.Pkg == pkg {
+						add(f)
+					}
+				}
+			}
+		}
+	}
+	sort.Slice(out, func(i, j int) bool { return out[i].Pos() < out[j].Pos() })
+	funcsCache[pkg] = out
+	return out
+}
 
 func (s *site) hold(rule, sub string, pos token.Pos, facts ...string) {
 	if s.ctl {
@@ -215,7 +303,7 @@ func isVec3Method(call *ssa.Call, name string) bool {
 // obligations; it returns false when the table engine cannot be run for it.
 func analyseSite(c *props.Ctx, t *tables, fn *ssa.Function) *site {
 	s := &site{c: c, t: t, fn: fn, name: c.P.FuncName(fn), ctl: c.P.IsControl(fn.Pos()), m: newSlotModel(),
-		refs: map[ssa.Value]cornerRef{}, viol: map[string]int{}, invs: map[string]ssa.Value{}}
+		refs: map[ssa.Value]cornerRef{}, viol: map[string]int{}, invs: map[string]ssa.Value{}, deadCalls: map[*ssa.Call]bool{}}
 	if !s.findTriLoop() {
 		return s
 	}
@@ -238,7 +326,7 @@ func analyseSite(c *props.Ctx, t *tables, fn *ssa.Function) *site {
 
 func (s *site) findTriLoop() bool {
 	fn := s.fn
-	ev := s.m.eval(nil)
+	ev := s.root()
 	type entry struct {
 		L, J ssa.Value
 	}
@@ -459,7 +547,9 @@ func (s *site) findCornerArrays() bool {
 	for v := range s.refs {
 		refs = append(refs, v)
 	}
-	sort.Slice(refs, func(i, j int) bool { return refs[i].Pos() < refs[j].Pos() || (refs[i].Pos() == refs[j].Pos() && refs[i].Name() < refs[j].Name()) })
+	sort.Slice(refs, func(i, j int) bool {
+		return refs[i].Pos() < refs[j].Pos() || (refs[i].Pos() == refs[j].Pos() && refs[i].Name() < refs[j].Name())
+	})
 	for _, v := range refs {
 		for _, r := range ssau.Refs(v) {
 			switch u := r.(type) {
@@ -467,7 +557,7 @@ func (s *site) findCornerArrays() bool {
 				if u.Index != v {
 					continue
 				}
-				sa := s.m.arrOf(u.X)
+				sa, _ := s.root().arr(u.X)
 				if sa == nil {
 					s.undecide("PAIR-1", "cornerArrays", ssau.PosOf(u), "a corner number subscripts something that is not a local fixed-size per-corner array")
 					return false
@@ -525,6 +615,11 @@ type vecDesc struct {
 }
 
 func (s *site) evalVec(e *evaluator, v ssa.Value) vecDesc {
+	if p, ok := v.(*ssa.Parameter); ok {
+		if cv, ce := e.canon(p); cv != v {
+			return s.evalVec(ce, cv)
+		}
+	}
 	if call, ok := v.(*ssa.Call); ok {
 		if isVec3New(call) && len(call.Call.Args) == 3 {
 			d := vecDesc{comps: true}
@@ -555,10 +650,10 @@ func (s *site) evalVec(e *evaluator, v ssa.Value) vecDesc {
 			}
 		}
 	}
-	if sa, idx, ok := s.m.slotLoad(v); ok && sa.Opaque == "" {
+	if sa, idx, ok := e.slotLoad(v); ok && sa.Opaque == "" {
 		if k := e.aff(idx); k.isConst() {
 			if vals := e.slotVals(sa, int(k.Off)); len(vals) == 1 {
-				return s.evalVec(e.withEnv(vals[0].env), vals[0].val)
+				return s.evalVec(vals[0].ev(e), vals[0].val)
 			}
 		}
 	}
@@ -566,7 +661,7 @@ func (s *site) evalVec(e *evaluator, v ssa.Value) vecDesc {
 }
 
 func (s *site) cornerPositions() bool {
-	e := s.m.eval(nil)
+	e := s.root()
 	var frame string
 	okAll := true
 	for k := 0; k < 8; k++ {
@@ -577,7 +672,7 @@ func (s *site) cornerPositions() bool {
 			okAll = false
 			continue
 		}
-		d := s.evalVec(e.withEnv(vals[0].env), vals[0].val)
+		d := s.evalVec(vals[0].ev(e), vals[0].val)
 		pos := vals[0].store.Store.Pos()
 		if vals[0].unknownRange {
 			d.reason = "corner positions are written under a subscript whose range is not a recognisable constant loop"
@@ -632,7 +727,7 @@ func (s *site) cornerPositions() bool {
 	var unit ssa.Value
 	for k := 0; k < 8; k++ {
 		vals := e.slotVals(s.P, k)
-		d := s.evalVec(e.withEnv(vals[0].env), vals[0].val)
+		d := s.evalVec(vals[0].ev(e), vals[0].val)
 		if !d.comps && d.unit != nil {
 			if unit == nil {
 				unit = d.unit
@@ -660,7 +755,7 @@ func (s *site) cornerPositions() bool {
 // D. samples: C[k] = data_k[index_k]  or  C[k] = f(P[k])
 
 func (s *site) samples() bool {
-	e := s.m.eval(nil)
+	e := s.root()
 	okAll := true
 	mode := ""
 	var fnVal ssa.Value
@@ -672,7 +767,7 @@ func (s *site) samples() bool {
 			okAll = false
 			continue
 		}
-		ek := e.withEnv(vals[0].env)
+		ek := vals[0].ev(e)
 		v := vals[0].val
 		pos := vals[0].store.Store.Pos()
 		if vals[0].unknownRange {
@@ -682,7 +777,7 @@ func (s *site) samples() bool {
 		}
 		// f(P[k'])
 		if call, ok := v.(*ssa.Call); ok && len(call.Call.Args) == 1 && !call.Call.IsInvoke() && call.Call.StaticCallee() == nil {
-			sa, idx, ok := s.m.slotLoad(call.Call.Args[0])
+			sa, idx, ok := ek.slotLoad(call.Call.Args[0])
 			if !ok || sa != s.P {
 				s.undecide("TAB-4", sub, pos, "sample is a function value applied to something that is not a corner position")
 				okAll = false
@@ -724,8 +819,8 @@ func (s *site) samples() bool {
 			okAll = false
 			continue
 		}
-		dArr, dIdx, ok1 := s.m.slotLoad(ia.X)
-		iArr, iIdx, ok2 := s.m.slotLoad(ia.Index)
+		dArr, dIdx, ok1 := ek.slotLoad(ia.X)
+		iArr, iIdx, ok2 := ek.slotLoad(ia.Index)
 		if !ok1 || !ok2 {
 			s.undecide("TAB-4", sub, pos, "sample is read as slice[index] but slice and index do not both come from per-corner arrays")
 			okAll = false
@@ -777,7 +872,7 @@ func (s *site) boolSource(e *evaluator, v ssa.Value) (*ssa.BinOp, *evaluator, bo
 				v = x.X
 				continue
 			}
-			sa, idx, ok := s.m.slotLoad(x)
+			sa, idx, ok := e.slotLoad(x)
 			if !ok || sa.Opaque != "" {
 				return nil, nil, false, false
 			}
@@ -789,7 +884,7 @@ func (s *site) boolSource(e *evaluator, v ssa.Value) (*ssa.BinOp, *evaluator, bo
 			if len(vals) != 1 || vals[0].unknownRange {
 				return nil, nil, false, false
 			}
-			e = e.withEnv(vals[0].env)
+			e = vals[0].ev(e)
 			v = vals[0].val
 			continue
 		}
@@ -800,7 +895,7 @@ func (s *site) boolSource(e *evaluator, v ssa.Value) (*ssa.BinOp, *evaluator, bo
 
 // sampleCorner resolves a float value to "sample of corner k".
 func (s *site) sampleCorner(e *evaluator, v ssa.Value) (int, bool) {
-	sa, idx, ok := s.m.slotLoad(v)
+	sa, idx, ok := e.slotLoad(v)
 	if !ok || sa != s.C {
 		return 0, false
 	}
@@ -817,7 +912,14 @@ type bitStep struct {
 	bit    affine
 	bitv   ssa.Value
 	pos    token.Pos
-	env    map[ssa.Value]int64
+	evl    *evaluator // context of cond / bitv (an entered helper, a loop-index binding)
+}
+
+func (b bitStep) ev(e *evaluator) *evaluator {
+	if b.evl != nil {
+		return b.evl
+	}
+	return e
 }
 
 // chainSteps walks a chain `v = phi(prev, prev|bit)` backwards from cur until it reaches
@@ -830,6 +932,9 @@ func (s *site) chainSteps(cur ssa.Value, stopAt ssa.Value) ([]bitStep, ssa.Value
 			return steps, cur, "", token.NoPos
 		}
 		if _, ok := constNum(cur); ok {
+			return steps, cur, "", token.NoPos
+		}
+		if _, ok := cur.(*ssa.Parameter); ok {
 			return steps, cur, "", token.NoPos
 		}
 		if seen[cur] {
@@ -876,7 +981,7 @@ func (s *site) chainSteps(cur ssa.Value, stopAt ssa.Value) ([]bitStep, ssa.Value
 }
 
 func (s *site) isLoopHeaderPhi(phi *ssa.Phi) bool {
-	for _, l := range ssau.Loops(s.fn) {
+	for _, l := range ssau.Loops(phi.Parent()) {
 		if l.Header == phi.Block() {
 			for i := range phi.Edges {
 				if l.Blocks[phi.Block().Preds[i]] {
@@ -889,22 +994,44 @@ func (s *site) isLoopHeaderPhi(phi *ssa.Phi) bool {
 }
 
 func (s *site) caseIndex() bool {
-	e := s.m.eval(nil)
+	e := s.root()
 	var steps []bitStep
 	cur := s.L
 	fail := func(pos token.Pos, msg string) bool {
 		s.undecide("TAB-5", "caseIndex", pos, msg)
 		return false
 	}
+	ctx := e
 	for guard := 0; ; guard++ {
 		if guard > 20 {
 			return fail(s.refPos, "the case index is built in too many stages")
+		}
+		// a parameter bound to a caller's value, or the result of a helper that computes the index
+		cur, ctx = ctx.canon(cur)
+		if call, ok := cur.(*ssa.Call); ok {
+			callee := call.Call.StaticCallee()
+			if callee != nil && callee.Pkg == s.fn.Pkg {
+				if ret := singleReturn(callee); ret != nil && len(ret.Results) == 1 {
+					ctx = ctx.enter(call)
+					cur = ret.Results[0]
+					continue
+				}
+			}
 		}
 		st, stop, msg, pos := s.chainSteps(cur, nil)
 		if msg != "" {
 			return fail(pos, msg)
 		}
+		for i := range st {
+			st[i].evl = ctx
+		}
 		steps = append(steps, st...)
+		if _, isParam := stop.(*ssa.Parameter); isParam {
+			if cv, _ := ctx.canon(stop); cv != stop {
+				cur = stop
+				continue
+			}
+		}
 		if n, ok := constNum(stop); ok {
 			if n != 0 {
 				return fail(s.refPos, fmt.Sprintf("the case index starts from %d, not 0", n))
@@ -912,9 +1039,12 @@ func (s *site) caseIndex() bool {
 			break
 		}
 		// loop form: stop is the loop-carried value  l = phi(init, body(l))
-		hphi := stop.(*ssa.Phi)
+		hphi, isPhi := stop.(*ssa.Phi)
+		if !isPhi {
+			return fail(s.refPos, "the case index does not start from the constant 0")
+		}
 		var loop *ssau.Loop
-		for _, l := range ssau.Loops(s.fn) {
+		for _, l := range ssau.Loops(hphi.Parent()) {
 			if l.Header == hphi.Block() {
 				loop = l
 			}
@@ -957,7 +1087,7 @@ func (s *site) caseIndex() bool {
 		}
 		for k := lo; k < hi; k++ {
 			for _, b := range body {
-				b.env = map[ssa.Value]int64{kv: k}
+				b.evl = ctx.withEnv(map[ssa.Value]int64{kv: k})
 				steps = append(steps, b)
 			}
 		}
@@ -970,9 +1100,10 @@ func (s *site) caseIndex() bool {
 	okAll := true
 	seenCorner := map[int]bool{}
 	polarity := map[bool]int{}
+	ops := map[[3]bool]int{}
 	usedBits := 0
 	for _, st := range steps {
-		se := e.withEnv(st.env)
+		se := st.ev(e)
 		st.bit = se.aff(st.bitv)
 		cmp, ce, neg, ok := s.boolSource(se, st.cond)
 		if !ok {
@@ -1001,6 +1132,7 @@ func (s *site) caseIndex() bool {
 			continue
 		}
 		seenCorner[k] = true
+		y, _ = ce.canon(y)
 		if s.cutoff == nil {
 			s.cutoff = y
 		} else if s.cutoff != y {
@@ -1008,15 +1140,23 @@ func (s *site) caseIndex() bool {
 			okAll = false
 			continue
 		}
-		below := op == token.LSS || op == token.LEQ // sample < threshold
-		flagged := below
-		if neg {
-			flagged = !flagged
+		// the bit as a function of (sample < t, sample == t, sample > t)
+		var tri [3]bool
+		switch op {
+		case token.LSS:
+			tri = [3]bool{true, false, false}
+		case token.LEQ:
+			tri = [3]bool{true, true, false}
+		case token.GTR:
+			tri = [3]bool{false, false, true}
+		case token.GEQ:
+			tri = [3]bool{false, true, true}
 		}
-		if !st.onTrue {
-			flagged = !flagged
+		if neg != !st.onTrue {
+			tri = [3]bool{!tri[0], !tri[1], !tri[2]}
 		}
-		polarity[flagged]++
+		ops[tri]++
+		polarity[tri[0]]++
 		if !st.bit.isConst() {
 			s.undecide("TAB-5", sub, st.pos, "the bit contributed by the corner is not a constant: "+st.bit.String())
 			okAll = false
@@ -1044,6 +1184,13 @@ func (s *site) caseIndex() bool {
 		return false
 	}
 	s.inside = polarity[true] > 0
+	if len(ops) > 1 {
+		s.violate("POL-1", "caseIndex:boundary", s.refPos, "corners are classified with different comparisons (some strict, some not): a sample equal to the threshold is inside for one corner number and outside for another, so the two cells sharing that grid point disagree and their common face does not close")
+		return false
+	}
+	for o := range ops {
+		s.flaggedAtEq = o[1]
+	}
 	return true
 }
 
